@@ -472,7 +472,18 @@ class Builder:
                 return N("fnbody", fn.node, steps=[], tail=self.pe(real[0]["e"], env), ret=None, lets=[], unknown=[], returns_parser=True)
             # anything else is not understood: keep the marker so that the rules about word parsers see (and reject) it
             return N("fnbody", fn.node, steps=[], tail=N("opaque", fn.node, src="body of %s" % fn.key), ret=None, lets=[], unknown=[s_ for s_ in real], returns_parser=True)
-        return N("fnbody", fn.node, steps=steps, tail=tail, ret=ret, lets=lets, unknown=unknown)
+        # parsers applied to the input inside statements that were not understood (their order and conditions are unknown,
+        # but that they may run is known): rules that look for what can happen *after* the steps consult them
+        late = []
+        for st_ in unknown + ([{"k": "expr", "e": ret}] if isinstance(ret, dict) else []):
+            for n_ in F.find_all(st_, lambda n_: isinstance(n_, dict) and n_.get("k") in ("call", "mcall")):
+                try:
+                    inv_ = self._invocation(n_, env, allow_try=False)
+                except Exception:
+                    inv_ = None
+                if inv_ is not None:
+                    late.append(inv_)
+        return N("fnbody", fn.node, steps=steps, tail=tail, ret=ret, lets=lets, unknown=unknown, late=late)
 
     def _ok_wrapped_invocation(self, a, env):
         """Ok(Wrapper(F(input, ..)?)) -> map(ref F, Wrapper)."""
